@@ -268,6 +268,10 @@ func (f *File) Seek(offset int64, whence int) (int64, error) {
 	if s := active.Load(); s != nil {
 		if err == nil && f.plan != nil && f.plan.ErrAt >= 0 {
 			f.off = r
+			if r < f.plan.ErrAt {
+				// a bad sector stays bad: reading again from before it delivers the bytes up to it again
+				f.failed = false
+			}
 		}
 		s.fsLog("seek", f.path, whence, r)
 		Yield("fs.seek")
